@@ -234,6 +234,13 @@ class Adapter(object):
           self.lastid[buf] = m["buffer_id"]
       return {"buf": buf, "total": m["total_len"], "dataLen": len(m["data"]), "inport": m["in_port"],
               "reason": {0: "miss", 1: "action"}.get(m["reason"], m["reason"]), "emitted": em}
+    if a == "Features":
+      msgs = self.h.send(rb.features_request(xid=77))
+      em = self.h.take_emitted()
+      rep = [m for m in msgs if m["type"] == rb.FEATURES_REPLY]
+      if len(rep) != 1 or len(msgs) != 1 or em:
+        return {"unexpected": [m["name"] for m in msgs], "emitted": len(em)}
+      return {"nbuf": rep[0]["n_buffers"]}
     if a == "SetConfig":
       msgs = self.h.send(rb.set_config(flags=0, miss_send_len=args["missLen"]))
       em = self.h.take_emitted()
@@ -260,6 +267,10 @@ class Adapter(object):
       sig["fields"] = diff
       sig["truncated"] = exp["dataLen"] < exp["total"]
       sig["buffered"] = exp["buf"] != 0
+    elif st["a"] == "Features":
+      sig["advertised"] = ("pool_size" if isinstance(obs, dict) and obs.get("nbuf") == exp["nbuf"] else
+                           "less_than_pool" if isinstance(obs, dict) and isinstance(obs.get("nbuf"), int)
+                           and obs["nbuf"] < exp["nbuf"] else "other")
     else:
       sig["act"] = st["args"].get("act") or "/".join(st["args"].get("acts", []))
       if "pins" in exp:
